@@ -157,7 +157,15 @@ func spawnRun(spec batchSpec, tier string, seed uint64, planFile string, keepLog
 	cmd.Stdout, cmd.Stderr = &out, &errb
 	err := cmd.Run()
 	if ctx.Err() == context.DeadlineExceeded {
-		return nil, errb.String(), fmt.Errorf("watchdog: worker exceeded %v", timeout)
+		// was the worker blocked or busy? (processor time of the worker itself; its children are not counted)
+		busy := ""
+		if ps := cmd.ProcessState; ps != nil {
+			cpu := ps.UserTime() + ps.SystemTime()
+			if cpu > timeout/4 {
+				busy = fmt.Sprintf(" busy (%.0f s of processor time)", cpu.Seconds())
+			}
+		}
+		return nil, errb.String(), fmt.Errorf("watchdog: worker exceeded %v%s", timeout, busy)
 	}
 	if err != nil {
 		return nil, errb.String(), fmt.Errorf("worker failed: %v", err)
@@ -222,7 +230,10 @@ func runBatch(spec batchSpec, tier string, batch uint64, deadline time.Time, onC
 					// and a full lint takes ~1 ms), otherwise harness trouble
 					hung := 0
 					for k := 0; k < 2; k++ {
-						if _, _, e2 := spawnRun(rs, tier, it.seed, "", false, 90*time.Second); e2 != nil && strings.Contains(e2.Error(), "watchdog") {
+						// (a worker that was busy when the limit struck is a slow run on a loaded machine - trouble of
+						// the harness, exit 2; a worker that sat idle is blocked. Calls that spin are found by the
+						// watchdogs inside the worker: per call, per scheduler step.)
+						if _, _, e2 := spawnRun(rs, tier, it.seed, "", false, 90*time.Second); e2 != nil && strings.Contains(e2.Error(), "watchdog") && !strings.Contains(e2.Error(), "busy") {
 							hung++
 						}
 					}
@@ -659,7 +670,8 @@ func replayMain(args []string) {
 		if r, ok := p.Knobs["race_build"].(bool); ok {
 			spec.Race = r
 		}
-		if fg, ok := p.Knobs["finegrain"].(bool); ok && fg {
+		wm, _ := p.Knobs["worker_mode"].(string)
+		if fg, ok := p.Knobs["finegrain"].(bool); (ok && fg) || strings.HasPrefix(wm, "fg") || wm == "clock" || wm == "panicinj" {
 			spec.Bin = "fg"
 		}
 		if mp, ok := p.Knobs["gomaxprocs"].(float64); ok {
